@@ -23,9 +23,12 @@
     6–14   preservation of `HsInv` frame by frame (`hs_generic`: a step changes the handshake data of one future)
     15–19  second layer `HsInv2`: `_state`/`result`/`abortReq` of the completed current call, the obligations of
            `pSetRd`/`pSetX`
+    20–24  third layer `HsInv3` (repaired order of `Signal::set` only): a thread inside the critical section of a
+           future signal holds its mutex; while an executor is in `Signal::set` after the store the future is
+           joinable and its owner has not passed `wait`
   This file: the executor facts are discharged with `Safety.lean`; the hypothesis-free theorems.
 -/
-import Nstd.Future.Handshake19
+import Nstd.Future.Handshake24
 import Nstd.Future.Safety
 namespace Nstd.Future
 
@@ -70,6 +73,53 @@ theorem state_after_join {f c : Nat} (hwf : cfg.WellFormed) (h : Reach cfg s)
     (hj : (s.futs f).joinable = false) (hc : (s.futs f).curCall = some c) :
     ((s.futs f).state = 2 ∨ (s.futs f).state = 3) ∧ ((s.futs f).state = 3 → (s.futs f).abortReq = true) :=
   state_after_join_of hwf execFacts_of_reach h hj hc
+
+/-! ### corollaries of the first layer -/
+
+/-- the Signal of a future is set only after the call started last has completed -/
+theorem signal_means_completed {f c : Nat} (hwf : cfg.WellFormed) (h : Reach cfg s)
+    (hsig : (s.sigs (f + 2)).signaled = true) (hc : (s.futs f).curCall = some c) : s.completed c = true :=
+  (reach_hs hwf execFacts_of_reach h).i1 f hsig c hc
+
+/-- `startProc` arms a future (`_joinable = true; …; run`) only after the previous call on it has completed -/
+theorem restart_after_completion {t : Tid} {c' c : Nat} {r : CallRec} (hwf : cfg.WellFormed) (h : Reach cfg s)
+    (htop : topFrame s t = some (.cArm c')) (hr : s.calls c' = some r) (hc : (s.futs r.fut).curCall = some c) :
+    s.completed c = true := by
+  have hH := reach_hs hwf execFacts_of_reach h
+  have hev := (reach_inv0 h).callsEv c' r hr
+  have hj : jn s r.fut = false := hH.top t .after r.fut ⟨_, role_of_topFrame htop, by simp [roleOf, hev]⟩
+  exact hH.g2 _ hj c hc
+
+/-- `~Future` destroys the object only after the call started last has completed -/
+theorem destroy_after_completion {t : Tid} {f c : Nat} (hwf : cfg.WellFormed) (h : Reach cfg s)
+    (htop : topFrame s t = some (.destroyF f)) (hc : (s.futs f).curCall = some c) : s.completed c = true := by
+  have hH := reach_hs hwf execFacts_of_reach h
+  exact hH.g2 _ (hH.top t .after f ⟨_, role_of_topFrame htop, rfl⟩) c hc
+
+/-! ### third layer: the Signal of a future in the repaired code (`Signal::set` broadcasts before it unlocks) -/
+
+/-- mutual exclusion on the mutex of a future signal, including re-created signals: a thread inside the critical
+    section holds the mutex -/
+theorem future_signal_owner {u : Tid} {x : Frame} {σ : Nat} (hwf : cfg.WellFormed) (hrep : cfg.repaired = true)
+    (h : Reach cfg s) (hσ : 2 ≤ σ) (hx : topFrame s u = some x) (hc : critS σ x = true) :
+    (s.sigs σ).owner = some u :=
+  (reach_hs3 hwf hrep execFacts_of_reach h).own u x σ hσ (role_of_topFrame hx) hc
+
+theorem future_signal_mutex {u v : Tid} {x y : Frame} {σ : Nat} (hwf : cfg.WellFormed) (hrep : cfg.repaired = true)
+    (h : Reach cfg s) (hσ : 2 ≤ σ) (hx : topFrame s u = some x) (hcx : critS σ x = true)
+    (hy : topFrame s v = some y) (hcy : critS σ y = true) : u = v := by
+  have h1 := future_signal_owner hwf hrep h hσ hx hcx
+  have h2 := future_signal_owner hwf hrep h hσ hy hcy
+  rw [h1] at h2; injection h2
+
+/-- when `~Future` destroys the Signal of a future, no other thread is inside any operation on that Signal
+    (no use of a destroyed mutex / condition variable); in the ORIGINAL order of `Signal::set` this fails
+    (broadcast after unlock) -/
+theorem destroy_no_signal_user {t u : Tid} {f : Nat} {x : Frame} (hwf : cfg.WellFormed)
+    (hrep : cfg.repaired = true) (h : Reach cfg s) (htop : topFrame s t = some (.destroyF f))
+    (hu : u ≠ t) (hx : topFrame s u = some x) : sigFrameOf (f + 2) x = false :=
+  no_sig_user (by rw [reach_cfg h]; exact hwf) (reach_inv0 h) (reach_hs hwf execFacts_of_reach h)
+    (reach_hs3 hwf hrep execFacts_of_reach h) ⟨_, role_of_topFrame htop, rfl⟩ hu (role_of_topFrame hx)
 
 /-! ### non-vacuity: a well-formed configuration with two clients on different futures -/
 
